@@ -3,26 +3,12 @@
    composite's related_to is per member (refuted against the union by a
    witness) and the federated variant is the scan of the union.               *)
 From Coq Require Import NArith ZArith List Bool Lia Permutation.
-From V Require Import Base.UString Model.Store Model.StoreRun Spec.StoreSpec
+From V Require Import Base.UString Model.Store Model.StoreRun Spec.StoreSpec Spec.StoreNavSpec
   Proofs.StoreBase Proofs.StoreMem Proofs.StoreFs Proofs.StoreAgree Proofs.StoreComposite.
 Import ListNotations.
 Open Scope list_scope.
 
 (* ---------- what a scan implies ---------- *)
-(* r is a relationship (of type rt if one is asked for) whose end `k` is a *)
-Definition is_rel_of (rt : option ustring) (k a : ustring) (r : obj) : bool :=
-  ustr_eqb (otype r) k_relationship &&
-  match rt with Some (c :: s) => prop_is k_relationship_type (c :: s) r | _ => true end &&
-  prop_is k a r.
-
-Definition rel_scan (P : list obj) (a : ustring) (rt : option ustring) (so to : bool) : list obj :=
-  (if to then [] else filter (is_rel_of rt k_source_ref a) P) ++
-  (if so then [] else filter (is_rel_of rt k_target_ref a) P).
-
-(* i is the other end of some relationship of the scan *)
-Definition neighbour (rels : list obj) (a i : ustring) : Prop :=
-  i <> a /\ exists r, In r rels /\ (prop_get k_source_ref r = Some i \/ prop_get k_target_ref r = Some i).
-
 Lemma all_hold_rel : forall rt k a o,
   all_hold (rel_base rt ++ [FOther (prop_is k a)]) o = is_rel_of rt k a o.
 Proof.
@@ -32,9 +18,6 @@ Qed.
 
 Lemma filter_ext_eq : forall {A} (f g : A -> bool) l, (forall x, f x = g x) -> filter f l = filter g l.
 Proof. intros. apply filter_ext. auto. Qed.
-
-(* a query function that scans a population *)
-Definition scans (qf : queryfn) (P : list obj) : Prop := forall q, qf q = Ok (filter (all_hold q) P).
 
 Theorem relationships_scan : forall qf P a rt so to, scans qf P ->
   relationships qf a rt so to = if so && to then Err EValue else Ok (rel_scan P a rt so to).
@@ -46,10 +29,6 @@ Proof.
 Qed.
 
 (* ---------- related_to over query functions with membership semantics ---------- *)
-(* qf answers q with exactly the objects of P that satisfy q (in some order, possibly de-duplicated) *)
-Definition answers (qf : queryfn) (P : list obj) : Prop :=
-  forall q, exists res, qf q = Ok res /\ forall o, In o res <-> In o P /\ all_hold q o = true.
-
 Lemma scans_answers : forall qf P, scans qf P -> answers qf P.
 Proof. intros qf P S q. exists (filter (all_hold q) P). split; auto. intros o. apply filter_In. Qed.
 
@@ -168,8 +147,6 @@ Proof.
   - apply Permutation_cons_app. auto.
 Qed.
 
-Definition id_in (ids : list ustring) (o : obj) : bool := existsb (ustr_eqb (oid o)) ids.
-
 Lemma query_each_scan_perm : forall qf P fl ids, scans qf P -> NoDup ids ->
   exists res, query_each qf fl ids = Ok res /\
     Permutation res (filter (fun o => all_hold fl o && id_in ids o) P).
@@ -275,11 +252,6 @@ Section Nav.
     rbind (collect (fun m => s_related m a rt so to fl) ms) (fun rs => Ok (dedupe (concat rs))).
   Proof. intros af [|m ms] a rt so to fl H; [contradiction|]. reflexivity. Qed.
 
-  (* members whose queries scan a population and whose relationships() is the generic one *)
-  Definition scan_member (m : source) (P : list obj) : Prop :=
-    (forall cf q, s_query m cf q = Ok (filter (all_hold (q ++ cf)) P)) /\
-    (forall a rt so to, s_rels m a rt so to = relationships (s_query m []) a rt so to).
-
   Lemma mem_scan_member : forall m, scan_member (mem_source [] m) (mem_objs m).
   Proof. intros m. split; intros; simpl; auto. Qed.
 
@@ -321,6 +293,33 @@ Section Nav.
       + destruct so; [contradiction|]. destruct (G _ H) as [P [P1 P2]].
         exists (rel_scan P a rt false to). split; [apply in_map_iff; exists P; auto|].
         unfold rel_scan. apply in_or_app. right. exact P2.
+  Qed.
+
+  (* relationships through a composite / Environment: the de-duplicated scan of the union of the members' populations *)
+  Theorem crelationships_union_scan : forall ms Ps a rt so to,
+    ms <> [] -> Forall2 scan_member ms Ps -> so && to = false ->
+    let U := concat Ps in
+    exists rels, crelationships ms a rt so to = Ok rels /\
+      (forall r, In r rels -> In r (rel_scan U a rt so to)) /\
+      (forall r, In r (rel_scan U a rt so to) -> exists r', In r' rels /\ dkey_of r' = dkey_of r) /\
+      NoDup (map dkey_of rels) /\
+      ((forall x y, In x U -> In y U -> dkey_of x = dkey_of y -> x = y) ->
+       forall r, In r rels <-> In r (rel_scan U a rt so to)).
+  Proof.
+    intros ms Ps a rt so to Hne F Hb U.
+    set (rels := dedupe (concat (map (fun P => rel_scan P a rt so to) Ps))).
+    assert (crelationships ms a rt so to = Ok rels) as Er.
+    { unfold crelationships. destruct ms; [contradiction|]. rewrite (collect_scan_rels _ Ps a rt so to F Hb). reflexivity. }
+    destruct (dedupe_spec (concat (map (fun P => rel_scan P a rt so to) Ps))) as [D1 [D2 D3]].
+    exists rels. split; auto. split; [|split; [|split]]; auto.
+    - intros r Hr. apply In_rel_scan_concat. apply D1. exact Hr.
+    - intros r Hr. apply D2. apply In_rel_scan_concat. exact Hr.
+    - intros Hag r. unfold rels. rewrite dedupe_In_agree; [apply In_rel_scan_concat|].
+      intros x y Hx Hy. apply In_rel_scan_concat in Hx. apply In_rel_scan_concat in Hy.
+      assert (forall z, In z (rel_scan U a rt so to) -> In z U) as Hz.
+      { intros z Hz. unfold rel_scan in Hz. apply in_app_or in Hz.
+        destruct Hz as [Hz|Hz]; [destruct to | destruct so]; try contradiction; apply filter_In in Hz; tauto. }
+      apply Hag; auto.
   Qed.
 
   (* the repaired variant: navigation on the federation as a whole = the scan of the union of the members'
